@@ -13,7 +13,7 @@
 # limitations under the License.
 """Deduping DNA generator."""
 
-from typing import Any, Tuple, Union
+from typing import Any, Iterable, Tuple, Union
 
 from pyglove.core import symbolic
 from pyglove.core import typing as pg_typing
@@ -130,6 +130,25 @@ class Deduping(DNAGenerator):
   def _feedback(self, dna: DNA, reward: Union[float, Tuple[float]]) -> None:
     self.generator.feedback(dna, reward)
     self._add_dna_to_cache(dna, reward)
+
+  def recover(
+      self,
+      history: Iterable[Tuple[DNA, Union[None, float, Tuple[float]]]]
+  ) -> None:
+    """Recover states by replaying the proposal history."""
+    # NOTE: the inner generator is recovered through its own `recover`
+    # method, which it may override (e.g. `pg.evolution.Evolution`) and which
+    # maintains its proposal/feedback counts.
+    history = list(history)
+    self.generator.recover(history)
+    for dna, reward in history:
+      # For generators that take feedback, duplication accounting is based on
+      # the DNAs that are fed back, thus pending proposals are not counted.
+      if reward is not None or not self.needs_feedback:
+        self._add_dna_to_cache(dna, reward)
+      self._num_proposals += 1
+      if reward is not None:
+        self._num_feedbacks += 1
 
   def _replay(self, trial_id: int, dna: DNA, reward: Any) -> None:
     self.generator._replay(trial_id, dna, reward)  # pylint: disable=protected-access
